@@ -24,12 +24,12 @@ from ..mbworld import MailboxWorld
 
 OBS_NAMES = ["NoInternal", "DocVerdict", "OnceEach", "Causal", "VersionsFirst", "LateGets", "InOrderOnce",
              "VersionsHonest", "AllDelivered", "KeyEstablished", "ClosedOnce", "NothingAfter", "Verdict", "Freed",
-             "CloseCompletes", "KeyAgree", "OnlyOneCode"]
+             "CloseCompletes", "KeyAgree", "OnlyOneCode", "Backed"]
 
 # which observer predicates decide which property
 DECIDES = {
     "C01": ["KeyAgree"],
-    "C02": ["InOrderOnce", "VersionsHonest"],
+    "C02": ["InOrderOnce", "VersionsHonest", "Backed"],
     "C03": ["InOrderOnce"],
     "C08": ["ClosedOnce", "NothingAfter", "Verdict", "Freed", "CloseCompletes"],
     "C09": ["AllDelivered", "KeyEstablished", "OnceEach", "InOrderOnce"],
@@ -292,6 +292,179 @@ def c01_case(tid, codes, appids, order, rng):
     return run, goal, drained
 
 
+def _permute_s2c(run, conn, side, perm, skip_pake=True):
+    """Reorder the in-flight message frames from `side` on conn to the order `perm` by adjacent server swaps
+    (frames of other origin keep their positions)."""
+    q = list(conn.s2c)
+    idx = [i for i, fr in enumerate(q) if fr["type"] == "message" and fr["side"] == side and not (skip_pake and fr["phase"] == "pake")]
+    if not idx or len(idx) != len(perm):
+        return False
+    lo, hi = idx[0], idx[-1]
+    if any(fr["type"] != "message" for fr in q[lo:hi + 1]):
+        return False
+    target = list(range(lo, hi + 1))             # target[j] = current index of the frame that must end at lo + j
+    for j, want in enumerate(perm):
+        target[idx[j] - lo] = idx[want]
+    cur = list(range(lo, hi + 1))
+    for pos, want in enumerate(target):
+        at = cur.index(want)
+        while at > pos:
+            run.apply({"a": "SwapS2C", "k": conn.id, "i": lo + at - 1})
+            cur[at - 1], cur[at] = cur[at], cur[at - 1]
+            at -= 1
+    return True
+
+
+def c03_case(tid, n, perm, reconnect, rng):
+    """B queues n application messages; the server holds back B's version and application frames on their way to A
+    and then hands them over in the order `perm` (a permutation of those n+1 frames); optionally A's connection is
+    dropped part way and the server replays the whole mailbox - PAKE included - in another order."""
+    run = RealRun(tid, "c03-family")
+    w = run.world
+    run.apply({"a": "ConnOpen", "c": "B"})
+    run.apply({"a": "AppSetCode", "c": "B", "code": "4-alpha-beta"})
+    for i in range(n):
+        run.apply({"a": "AppSend", "c": "B", "data": ("m:B:%d" % i).encode().hex()})
+    run.drain()
+    if any(a["a"] == "ConnOpen" and a["c"] == "A" for a in w.enabled(faults=False)):
+        run.apply({"a": "ConnOpen", "c": "A"})
+    run.apply({"a": "AppSetCode", "c": "A", "code": "4-alpha-beta"})
+    bside = w.clients["B"].side
+
+    def hold_and_permute(p, replay=False):
+        for _ in range(300):
+            moved = False
+            for a in w.enabled(faults=False):
+                if a["a"] == "Deliver":
+                    conn = w.conn(a["k"])
+                    fr = conn.s2c[0]
+                    if conn.client.name == "A" and fr["type"] == "message" and fr["side"] == bside and (replay or fr["phase"] != "pake"):
+                        ctl = [i for i, f in enumerate(conn.s2c) if f["type"] != "message"]
+                        if ctl:
+                            run.apply({"a": "HoistS2C", "k": conn.id, "i": ctl[0]})
+                            run.apply(a)
+                            moved = True
+                            break
+                        continue
+                if a["a"] in ("Serve", "Deliver", "CloseDone"):
+                    run.apply(a)
+                    moved = True
+                    break
+            if not moved:
+                break
+        conns = [c for c in w.conns if c.client.name == "A" and c.state == "open" and not c.closing]
+        return bool(conns) and _permute_s2c(run, conns[-1], bside, p, skip_pake=not replay), (conns[-1] if conns else None)
+
+    ok, conn = hold_and_permute(perm)
+    if reconnect is not None and conn is not None:
+        for _ in range(reconnect):
+            if conn.s2c:
+                run.apply({"a": "Deliver", "k": conn.id})
+        run.apply({"a": "Drop", "k": conn.id})
+        for _ in range(6):
+            acts = [a for a in w.enabled(faults=False) if a["a"] in ("Retry", "ConnOpen") and a.get("c") == "A"]
+            if not acts:
+                break
+            run.apply(acts[0])
+        p2 = list(range(n + 2))
+        rng.shuffle(p2)
+        ok2, _ = hold_and_permute(p2, replay=True)
+        ok = ok and ok2
+    drained = run.drain()
+    return run, bool(drained), drained, ok
+
+
+def c02_prepake_case(tid, n, relabel, newside, tamper_pake_too):
+    """The server holds back B's PAKE frame on its way to A, delivers B's version and application frames first
+    (where the Order machine queues them) with the `side` of the frames in `relabel` rewritten, then the PAKE."""
+    run = RealRun(tid, "c02-prepake")
+    w = run.world
+    for c in ("B", "A"):
+        if any(a["a"] == "ConnOpen" and a["c"] == c for a in w.enabled(faults=False)):
+            run.apply({"a": "ConnOpen", "c": c})
+        run.apply({"a": "AppSetCode", "c": c, "code": "4-alpha-beta"})
+    for i in range(n):
+        run.apply({"a": "AppSend", "c": "B", "data": ("m:B:%d" % i).encode().hex()})
+    bside, aside = w.clients["B"].side, w.clients["A"].side
+    # B's application messages leave only after B has verified A's version, which A sends only after B's PAKE: so
+    # A gets the PAKE once on a first connection; that connection is then dropped and the whole mailbox replayed
+    # - but a replayed PAKE is a duplicate that Mailbox drops.  The pre-PAKE window is therefore only reachable
+    # for the version frame and for whatever the server invents: hold everything from B, PAKE included.
+    for _ in range(300):
+        moved = False
+        for a in w.enabled(faults=False):
+            if a["a"] == "Deliver":
+                conn = w.conn(a["k"])
+                fr = conn.s2c[0]
+                if conn.client.name == "A" and fr["type"] == "message" and fr["side"] == bside:
+                    ctl = [i for i, f in enumerate(conn.s2c) if f["type"] != "message" or f["side"] != bside]
+                    if ctl:
+                        # frames of other origin overtake the held ones
+                        for j in range(ctl[0], 0, -1):
+                            if conn.s2c[j]["type"] == "message":
+                                run.apply({"a": "SwapS2C", "k": conn.id, "i": j - 1})
+                            else:
+                                run.apply({"a": "HoistS2C", "k": conn.id, "i": j})
+                                break
+                        run.apply(a)
+                        moved = True
+                        break
+                    continue
+            if a["a"] in ("Serve", "Deliver", "CloseDone"):
+                run.apply(a)
+                moved = True
+                break
+        if not moved:
+            break
+    conns = [c for c in w.conns if c.client.name == "A" and c.state == "open" and not c.closing]
+    if not conns:
+        return run, False, run.drain(), False
+    conn = conns[-1]
+    idx = [i for i, fr in enumerate(conn.s2c) if fr["type"] == "message" and fr["side"] == bside]
+    phases = [conn.s2c[i]["phase"] for i in idx]
+    ok = "pake" in phases and len(idx) >= 2
+    if ok:
+        k = phases.index("pake")
+        perm = [j for j in range(len(idx)) if j != k] + [k]
+        ok = _permute_s2c(run, conn, bside, perm, skip_pake=False)
+        idx = [i for i, fr in enumerate(conn.s2c) if fr["type"] == "message" and fr["side"] == bside]
+        v = {"own": aside, "x": "f0f0f0f0f0", "x2": "0a0a0a0a0a"}[newside]
+        for j in relabel:
+            if j < len(idx) - 1:
+                run.apply({"a": "TamperS2C", "k": conn.id, "i": idx[j], "op": "side", "v": v})
+        if tamper_pake_too:
+            run.apply({"a": "TamperS2C", "k": conn.id, "i": idx[-1], "op": "side", "v": v})
+    drained = run.drain()
+    return run, False, drained, ok
+
+
+def c18_case(tid, k, j, how):
+    """A lazy Deferred-mode application: the peer sends k messages, the application reads j of them, the wormhole
+    closes (`how`), and every get_*() issued afterwards must fail - including get_message() with unread
+    messages still buffered."""
+    run = RealRun(tid, "c18-family", modes={"A": "deferred-lazy", "B": "delegated"})
+    w = run.world
+    for c in ("A", "B"):
+        run.apply({"a": "ConnOpen", "c": c})
+    run.apply({"a": "AppSetCode", "c": "A", "code": "4-alpha-beta"})
+    run.apply({"a": "AppSetCode", "c": "B", "code": "4-alpha-beta" if how != "wrong" else "4-gamma-delta"})
+    for i in range(k):
+        run.apply({"a": "AppSend", "c": "B", "data": ("m:B:%d" % i).encode().hex()})
+    run.drain()
+    for _ in range(j):
+        run.apply({"a": "AppGet", "c": "A", "kind": "message"})
+    if how == "pending":
+        # one more get than there are messages: it is outstanding when the wormhole closes
+        for _ in range(k - j + 1):
+            run.apply({"a": "AppGet", "c": "A", "kind": "message"})
+    run.apply({"a": "AppClose", "c": "A"})
+    drained = run.drain()
+    for kind in ("message",) * (k + 1) + ("code", "key", "verifier", "versions", "welcome"):
+        run.apply({"a": "AppGet", "c": "A", "kind": kind})
+    run.drain()
+    return run, False, drained
+
+
 def c02_case(tid, victim, frame_index, op, rng):
     """honest exchange of two messages each way; the server manipulates the frame_index-th message frame
     delivered to `victim` (byte-level variants chosen by rng)"""
@@ -408,7 +581,11 @@ def replay_spec_behaviour(tid, states, origin, prop):
 def random_real_walk(tid, rng, prop, steps=60):
     """Code -> spec: a seeded random walk over the environment actions actually enabled on the real
     system, within the action families the property's environment allows."""
-    run = RealRun(tid, "random")
+    modes = None
+    if prop == "C18" and rng.random() < 0.4:
+        # a Deferred-mode application that does not ask for messages as they come: they wait in the observer's buffer
+        modes = {"A": "deferred-lazy", "B": "delegated"}
+    run = RealRun(tid, "random", modes=modes)
     w = run.world
     budget = {"Drop": rng.choice([0, 1, 2]), "Dup": rng.choice([0, 1]), "SwapS2C": rng.choice([0, 1]),
               "send": {"A": rng.choice([0, 1, 2]), "B": rng.choice([0, 1, 2])},
@@ -436,7 +613,10 @@ def random_real_walk(tid, rng, prop, steps=60):
                 acts.append(a)      # bias towards progress
         for c in ("A", "B"):
             if w.clients[c].mode == "deferred" and prop in ("C18", "C08", "C14") and rng.random() < 0.12 and late_budget[c] > 0:
-                acts.append({"a": "AppGet", "c": c, "kind": rng.choice(["code", "key", "verifier", "versions", "message", "welcome"])})
+                kinds = ["code", "key", "verifier", "versions", "welcome"]
+                if w.clients[c].lazy or any(k == "closed" for k, _ in w.clients[c].events):
+                    kinds += ["message", "message"]     # an eager application already has a get_message() outstanding
+                acts.append({"a": "AppGet", "c": c, "kind": rng.choice(kinds)})
             if c in closed:
                 continue
             if c not in coded:
@@ -478,7 +658,7 @@ def random_real_walk(tid, rng, prop, steps=60):
         for c in ("A", "B"):
             cl = w.clients[c]
             if cl.mode == "deferred" and any(k == "closed" for k, _ in cl.events):
-                for kind in ("code", "message", "verifier"):
+                for kind in ("code", "message", "message", "message", "verifier"):
                     run.apply({"a": "AppGet", "c": c, "kind": kind})
     goal = drained and not closed and coded == {"A", "B"} and codes["A"] == codes["B"] and \
         all(w.live_conn(c) is not None for c in w.clients.values())
@@ -687,18 +867,78 @@ def run_pipeline(prop, tier, v, quick):
                         runs[tid] = run_
                         records.append(run_.finish(drained, goal=False))
             cov["c02_family_cases"] = n
+            npre = nok = 0
+            for n_ in (0, 1, 2):
+                for relabel in ([0], [0, 1, 2, 3], [1], [2]):
+                    for newside in ("x", "own", "x2"):
+                        for tp in (False, True):
+                            tid += 1
+                            npre += 1
+                            try:
+                                run_, goal, drained, ok = c02_prepake_case(tid, n_, relabel, newside, tp)
+                            except Exception as e:
+                                cov.setdefault("family_errors", []).append(repr(e)[:120])
+                                continue
+                            nok += bool(ok)
+                            runs[tid] = run_
+                            records.append(run_.finish(drained, goal=False))
+            cov["c02_prepake_cases"] = npre
+            cov["c02_prepake_reordered"] = nok
+        if prop in ("C03", "C09"):
+            import itertools
+            fam = []
+            for n_ in (2, 3, 4):
+                for perm in itertools.permutations(range(n_ + 1)):
+                    fam.append((n_, perm))
+            frng = random.Random(seed * 31 + 3)
+            if quick:
+                fam = fam[:30] + frng.sample(fam[30:], 30)
+            nperm = 0
+            for (n_, perm) in fam:
+                for reconnect in (None, frng.randrange(0, n_ + 1)):
+                    tid += 1
+                    try:
+                        run_, goal, drained, ok = c03_case(tid, n_, list(perm), reconnect, frng)
+                    except Exception as e:
+                        cov.setdefault("family_errors", []).append(repr(e)[:120])
+                        continue
+                    nperm += bool(ok)
+                    runs[tid] = run_
+                    records.append(run_.finish(drained, goal=goal))
+            cov["c03_family_cases"] = 2 * len(fam)
+            cov["c03_family_permuted"] = nperm
+        if prop == "C18":
+            n = 0
+            for how in ("happy", "wrong", "pending"):
+                for k_ in range(0, 4):
+                    for j_ in range(0, k_ + 1):
+                        tid += 1
+                        n += 1
+                        try:
+                            run_, goal, drained = c18_case(tid, k_, j_ if how != "wrong" else 0, how)
+                        except Exception as e:
+                            cov.setdefault("family_errors", []).append(repr(e)[:120])
+                            continue
+                        runs[tid] = run_
+                        records.append(run_.finish(drained, goal=False))
+            cov["c18_family_cases"] = n
         # ---- 3. code -> spec: random schedules on the real system
         nrand = 120 if quick else 1200
+        nlazy = 0
         for _ in range(nrand):
             tid += 1
             run_, goal, drained = random_real_walk(tid, rng, prop, steps=rng.choice([25, 40, 60]))
             runs[tid] = run_
-            lines += run_.lines
+            if any(c.lazy for c in run_.world.clients.values()):
+                nlazy += 1          # the model's application takes messages as they come: not trace-validated
+            else:
+                lines += run_.lines
             records.append(run_.finish(drained, goal=goal))
+        cov["lazy_application_runs"] = nlazy
         cov.setdefault("timing", {})["tlc_exhaustive_s"] = round(sum(c["wall_s"] for c in cov["tlc_configs"].values()), 1)
         cov["timing"]["real_runs_s"] = round(time.time() - t1 - cov["timing"]["simulate_s"], 1)
         t1 = time.time()
-        tv, rtv = run_trace_validation(wd, lines, nrand)
+        tv, rtv = run_trace_validation(wd, lines, nrand - nlazy)
         cov["timing"]["trace_validation_s"] = round(time.time() - t1, 1)
         cov["trace_lines"] = len(lines)
         accepted = sum(1 for t, (a, b) in tv.items() if a == b)
